@@ -310,6 +310,10 @@ func (i *c08Inst) Apply(op int) (string, []rep.Violation) {
 			viol = append(viol, i.viol("returned-handle-not-appended", o.name, "the returned paragraph is not among the new elements"))
 		}
 		for _, e := range newEls {
+			// what is appended is new content: never an object the body (or an earlier state of it) already holds
+			if _, seen := i.toks[e]; seen {
+				viol = append(viol, i.viol("append-reuses-an-existing-element", o.name, "the appended "+kindOf(e)+" is the same object as an element appended earlier"))
+			}
 			t := ""
 			switch e.(type) {
 			case *document.Paragraph, *document.Table, *document.MathParagraph:
@@ -396,6 +400,18 @@ func (i *c08Inst) Apply(op int) (string, []rep.Violation) {
 			i.model = append(i.model, c08El{ptr: e})
 		}
 		i.lastNT = len(newEls) > 0
+		if o.arg != 1 && err == nil {
+			// a page-setting or header/footer call that succeeded leaves the body with its section settings, exactly once
+			n := 0
+			for _, e := range i.doc.Body.Elements {
+				if _, ok := e.(*document.SectionProperties); ok {
+					n++
+				}
+			}
+			if n != 1 {
+				viol = append(viol, i.viol("section-settings-count-after-setter", o.name, fmt.Sprintf("the body holds %d section settings elements after a successful call [%s]", n, i.dumpImpl())))
+			}
+		}
 		viol = append(viol, i.compare(o.name)...)
 		if len(newEls) > 0 {
 			return "created-sect", viol
@@ -486,7 +502,10 @@ func (i *c08Inst) Key() string {
 	if i.saved {
 		b.WriteString("|saved") // a serialisation happened earlier in the history
 	}
-	// section settings content can differ (margins/header set or not) but no operation's effect on the list depends on it
+	// section settings content can differ (margins/header set or not) but no operation's effect on the list depends on it.
+	// The shallow fingerprint of the Document's own fields (counters, lengths, nil-ness, computed by reflection)
+	// keeps histories apart whose hidden state differs.
+	b.WriteString("|" + rep.Hash(i.doc.VerifShallowState()))
 	return b.String()
 }
 
@@ -570,14 +589,15 @@ func mathText(n *pkgmodel.Node) string {
 }
 
 func runC08(r *rep.Run) {
-	depth := 5
+	depth := 4
 	if r.Tier == "thorough" {
-		depth = 7
+		depth = 6
 	}
-	r.Rule = "BFS over histories of append (12 kinds), section-creating (5) and remove (by handle: live/stale/foreign/nil; by paragraph index and by element index, every index in -1..n+1) operations on a real Document, in lock-step with a plain list model; state key = sequence of element kinds (+ whether a stale handle exists); non-trivial = a step that changed the list; each distinct state is saved and its w:body child order compared with the model"
+	r.Rule = "BFS over histories of append (12 kinds), section-creating (5) and remove (by handle: live/stale/foreign/nil; by paragraph index and by element index, every index in -1..n+1) operations on a real Document, in lock-step with a plain list model; state key = sequence of element kinds (+ whether a stale handle exists) + a reflective shallow fingerprint of the Document's own fields (counters, lengths, nil-ness), and every history of <= 2 operations is executed whatever the key merges; non-trivial = a step that changed the list; each distinct state is saved and its w:body child order compared with the model"
 	r.Bounds["depth"] = depth
+	r.Bounds["histories_expanded_without_state_merging_up_to_length"] = 1
 	r.Bounds["alphabet"] = len(c08Ops)
 	r.Assume = []string{"state key drops paragraph text and section-settings content: no list operation depends on them", "GenerateTOC is outside the statement's list of appends: only the frame condition is demanded of it"}
-	p := seqx.Search("C08", seqx.Opts{Depth: depth, Deadline: r.Deadline})
+	p := seqx.Search("C08", seqx.Opts{Depth: depth, Deadline: r.Deadline, FullDepth: 1})
 	r.Merge(p)
 }
